@@ -147,8 +147,8 @@ CHECKS = {
   technique='sibling-table agreement: writer PK ratios and renaming dictionaries extracted from update.py (finite '
             'evaluation of the if-chains over all (from ADVAN, ADVAN, TRANS) triples) versus the reader tables of C01 '
             '(edge unification with sympy); printer -> grammar -> interpreter composition on the operator alphabet; '
-            'n-ary / parenthesisation shape of the printer; numbering-source lint; must-pass-through (CFG + callee summaries) of the state refresh on every branch of the ODE update; finite evaluation of the statement-group diff filters; sequential-substitution lint',
-  text='B5-B7 decide that every branch of the ODE update renumbers Sn/A(n) and stores the compartment map, that a changed statement group removes exactly the old and regenerates exactly the new statements, and that renumbering is simultaneous. B1-B4 decide that reader, writer and renamer use one PREDPP table, that the printer is a right inverse of the '
+            'n-ary / parenthesisation shape of the printer; numbering-source lint; must-pass-through (CFG + callee summaries) of the state refresh on every branch of the ODE update; finite evaluation of the statement-group diff filters; sequential-substitution lint; function-alphabet round trip (grammar rule tokens -> interpreter callable -> printer method token and arity, sympy used only to classify its own callables); printer self-bypass lint; who-may-select rule for solver ADVANs; defaulted-getter versus replace_option contradiction; coverage of the K renaming over the ADVANs new_advan_trans can select',
+  text='B8-B12 decide that every intrinsic the reader produces is printed back as a token of the same rule with all arguments, that the printer never formats a sub-expression outside itself, that a solver ADVAN is only written together with $DES, that TRANS is written when the record had none, and that the elimination constant is renamed for every closed-form target ADVAN. B5-B7 decide that every branch of the ODE update renumbers Sn/A(n) and stores the compartment map, that a changed statement group removes exactly the old and regenerates exactly the new statements, and that renumbering is simultaneous. B1-B4 decide that reader, writer and renamer use one PREDPP table, that the printer is a right inverse of the '
        'parser on all relational/logical operators and prints every operand, and that all numbering sites share one '
        'order. Semantic equality of generated code after arbitrary transformation sequences is not decided.',
   note='Trusted: specs/predpp.json; sympy class names of relational operators.',
